@@ -36,4 +36,4 @@ Deliverables — write them into `{wt}/mutants/` (create it):
   - {', '.join(f'`m{k}.json`' for k in ks)} : {{"property": "{pid}", "summary": "...what was changed...", "needs": "...what specific condition is needed for the breakage to manifest...", "checked": "...commands you ran and what they printed..."}}
 Before finishing, for every mutant: start from a clean tree (`git checkout -- . && git status --short` shows only mutants/), run the demo (must PASS), `git apply mutants/mK.diff`, run the 144 tests (must all pass), run the demo (must FAIL), then `git checkout -- flamapy` to restore. Leave the worktree clean (apart from `mutants/`) at the end.
 
-{'This is a THIRD round: slips in the obvious functions, caches keyed by name-only equality, letter-case confusions, multi-digit numbers compared as strings and missing parentheses around nested operators have all been tried already. Look elsewhere: attributes (values None / bool / int / float / string / nested lists and maps; True == 1 and 1 == 1.0 confusions), feature types and feature cardinalities, error paths (what is raised and when, errors swallowed and a partial model returned), off-by-one in indices or paths, things only visible with three or more relations under one parent or three or more levels of nesting, mixed single children and groups under one parent in a particular order, escaping of special characters (quotes, backslashes, XML entities, newlines inside names), empty or one-element collections, models with zero constraints or a single feature, abstract flags, and the order of dictionary / list traversal. ' if start > 6 else ''}{'This is a SECOND round: simple slips in the most obvious function (a flipped comparison, a dropped element, a missing quote) have been tried already. Look for the less obvious places: helper functions, rarely taken branches, interactions between two functions or two calls, state kept between calls, behaviour that depends on ordering, letter case, numeric width (multi-digit numbers), empty / single-element collections, or on Python data-model methods (__eq__, __hash__, __lt__, __str__). ' if 1 < start <= 6 else ''}IMPORTANT: before designing a mutant, read the relevant code and actually check, with a quick experiment, that the unmodified library satisfies the property on your demonstration input; the library has some pre-existing defects, so pick inputs where the current behaviour is right. Report at the end a short list: for each mutant, one line with the file changed, the idea, and the confirmed PASS→FAIL result.""")
+{'This is a FOURTH round. Everything obvious has been tried: slips in the main functions, caches keyed by name-only equality, letter case, multi-digit numbers compared as text, missing parentheses, attribute value types, reserved words, control characters in names, deep nesting. Aim for changes whose effect is COMPENSATED somewhere else so that simple checks agree: a writer and its reader changed together so that the round trip still works but the file no longer means the same under the format definition; a value that is wrong in a way the library itself cannot notice (e.g. an off-by-one that only shows in the total, not in any listing; an ordering that differs only between processes; a copy that should have been deep); a change that only matters for the SECOND of two different objects handled by one function call (loop-carried state); Python truthiness of 0 / empty string / empty list; integer versus float results (2 vs 2.0, 1e3 vs 1000); mutable default arguments; exceptions swallowed by a broad except and replaced by a default; a guard that returns early for one rare shape (single child, single feature, exactly two constraints, a relation whose min equals its max). ' if start > 8 else ''}{'This is a THIRD round: slips in the obvious functions, caches keyed by name-only equality, letter-case confusions, multi-digit numbers compared as strings and missing parentheses around nested operators have all been tried already. Look elsewhere: attributes (values None / bool / int / float / string / nested lists and maps; True == 1 and 1 == 1.0 confusions), feature types and feature cardinalities, error paths (what is raised and when, errors swallowed and a partial model returned), off-by-one in indices or paths, things only visible with three or more relations under one parent or three or more levels of nesting, mixed single children and groups under one parent in a particular order, escaping of special characters (quotes, backslashes, XML entities, newlines inside names), empty or one-element collections, models with zero constraints or a single feature, abstract flags, and the order of dictionary / list traversal. ' if 6 < start <= 8 else ''}{'This is a SECOND round: simple slips in the most obvious function (a flipped comparison, a dropped element, a missing quote) have been tried already. Look for the less obvious places: helper functions, rarely taken branches, interactions between two functions or two calls, state kept between calls, behaviour that depends on ordering, letter case, numeric width (multi-digit numbers), empty / single-element collections, or on Python data-model methods (__eq__, __hash__, __lt__, __str__). ' if 1 < start <= 6 else ''}IMPORTANT: before designing a mutant, read the relevant code and actually check, with a quick experiment, that the unmodified library satisfies the property on your demonstration input; the library has some pre-existing defects, so pick inputs where the current behaviour is right. Report at the end a short list: for each mutant, one line with the file changed, the idea, and the confirmed PASS→FAIL result.""")
